@@ -1,6 +1,7 @@
 package worlds
 
 import (
+	"fmt"
 	"math/big"
 
 	"github.com/gethiox/HIDI/verifsim/model"
@@ -298,23 +299,54 @@ func scenarioKeyAxisMappingSwitch(c *w1Case, r *simrt.Rng) {
 	c.unplugs = []int{-1}
 }
 
-// (b) the same key code is pressed on two sub-handlers of one device.
+// (b) the same key code on two sub-handlers of one device (repaired defect: the tracker was keyed by the code
+// alone): random press/release interleavings of the two, with a third ordinary key and transposition in between.
 func scenarioSameCodeTwoHandlers(c *w1Case, r *simrt.Rng) {
 	c.scenario = "same-key-code-on-two-subhandlers"
-	o := genOpts{nKeys: [2]int{2, 2}, nMaps: [2]int{1, 1}, notePool: []int{60}, exitLen: -1, handlers: 2}
+	o := genOpts{nKeys: [2]int{2, 3}, nMaps: [2]int{1, 1}, notePool: []int{60, 64}, actions: []string{"octave_up", "octave_down", "channel_up"}, exitLen: -1, handlers: 2}
 	c.d = baseDesc(r, o)
 	m := &c.d.Mappings[0]
-	k := m.Keys[0].Keys[0]
-	k2 := k
-	k2.Note, k2.NoteText = 67, "67"
-	m.Keys = []model.SubKeys{{Sub: c.d.Handlers[0], Keys: []model.KeyDesc{k}}, {Sub: c.d.Handlers[1], Keys: []model.KeyDesc{k2}}}
-	c.script = []model.Event{
-		{Kind: "key", Handler: 0, Code: k.Code, Value: 1},
-		{Kind: "key", Handler: 1, Code: k.Code, Value: 1},
-		{Kind: "key", Handler: 0, Code: k.Code, Value: 0},
-		{Kind: "key", Handler: 1, Code: k.Code, Value: 0},
+	var all []model.KeyDesc
+	for _, sk := range m.Keys {
+		all = append(all, sk.Keys...)
 	}
-	c.unplugs = []int{-1}
+	k := all[0]
+	k2 := k
+	k2.Note = []int{67, 60, 72}[r.Intn(3)]
+	k2.NoteText = fmt.Sprint(k2.Note)
+	other := all[len(all)-1]
+	m.Keys = []model.SubKeys{{Sub: c.d.Handlers[0], Keys: []model.KeyDesc{k, other}}, {Sub: c.d.Handlers[1], Keys: []model.KeyDesc{k2}}}
+	type hk struct {
+		h    int
+		code uint16
+	}
+	keys := []hk{{0, k.Code}, {1, k.Code}, {0, other.Code}}
+	down := map[hk]bool{}
+	n := r.Range(4, 14)
+	for i := 0; i < n; i++ {
+		if r.Chance(0.15) {
+			a := c.d.Actions[r.Intn(len(c.d.Actions))]
+			c.script = append(c.script, model.Event{Kind: "key", Code: a.Code, Value: 1}, model.Event{Kind: "key", Code: a.Code, Value: 0})
+			continue
+		}
+		x := keys[r.Intn(len(keys))]
+		v := int32(1)
+		if down[x] {
+			v = 0
+		}
+		down[x] = !down[x]
+		c.script = append(c.script, model.Event{Kind: "key", Handler: x.h, Code: x.code, Value: v})
+	}
+	if r.Chance(0.7) {
+		for _, x := range keys {
+			if down[x] {
+				c.script = append(c.script, model.Event{Kind: "key", Handler: x.h, Code: x.code, Value: 0})
+			}
+		}
+		c.unplugs = []int{-1}
+	} else {
+		c.unplugs = []int{-1, r.Intn(len(c.script) + 1)}
+	}
 }
 
 // (c) cc_learning is held while a key-emulating axis returns to centre.
@@ -335,6 +367,11 @@ func scenarioLearningGateKeyAxis(c *w1Case, r *simrt.Rng) {
 }
 
 func genC02(c *w1Case, r *simrt.Rng) {
+	if r.Chance(0.05) {
+		scenarioSameCodeTwoHandlers(c, r)
+		c.scenario = ""
+		return
+	}
 	acts := append([]string{}, transposeActions...)
 	acts = append(acts, "multinote", "cc_learning")
 	o := genOpts{nKeys: [2]int{2, 8}, nMaps: [2]int{1, 3}, notePool: intsRange(30, 100), offsets: true, actions: acts, exitLen: -1, defaults: true,
@@ -349,6 +386,11 @@ func genC02(c *w1Case, r *simrt.Rng) {
 }
 
 func genC03(c *w1Case, r *simrt.Rng) {
+	if r.Chance(0.05) {
+		scenarioSameCodeTwoHandlers(c, r)
+		c.scenario = ""
+		return
+	}
 	pool := []int{60, 60, 60, 60, 61, 72}
 	o := genOpts{nKeys: [2]int{2, 7}, nMaps: [2]int{1, 2}, notePool: pool, offsets: r.Chance(0.3),
 		actions: []string{"octave_up", "octave_down", "semitone_up", "semitone_down", "channel_up", "channel_down"}, exitLen: -1, defaults: r.Chance(0.5),
